@@ -131,7 +131,7 @@ def check(ctx):
     # ---- C14-d two-phase helper
     q2 = FP + "relative_permeabilities_twophase"
     f2 = P.func(q2)
-    it2 = interp(ctx, opaque={q})
+    it2 = interp(ctx, opaque={q}, erase_masks=False)  # a row selection of the sweep is a different table
     ctx.touch(q2)
     paths2 = it2.run_function(q2)
     okr = any(p.outcome == "raise" and p.exc == "ValueError" and p.decisions and p.decisions[-1][0][0] == "gt" and p.decisions[-1][1] and nf.unkey(p.decisions[-1][0][1]) == nf.sub(nf.sym("Sw"), P_("S_wc")) for p in paths2)
@@ -153,6 +153,11 @@ def check(ctx):
             via.append(arg.qual.rsplit(".", 1)[-1])
             arg = arg.args["recv"]
         changed = [m for m in via if m not in ("to_records", "copy", "to_dict", "reset_index")]
+        at_ = it2.single_atom(it2.to_nf(arg)) if not isinstance(arg, DictV) else None
+        if at_ is not None and at_[0] == "fn" and at_[1] == "rows":
+            # frame[mask]: fewer rows, and the rows kept keep their labels - the curves computed from the records get
+            # fresh ones, so that pasting the two side by side pairs row i with another row (or with nothing)
+            changed.append("row selection")
         if changed:
             ctx.bad(
                 "C14-d", q2 + ":records handed over", f2.where(),
